@@ -46,6 +46,8 @@ STANDINS = [
      "props": ["C07"], "timeout": {"quick": 900, "thorough": 3600}},
     {"name": "vocab_names", "module": "standins.vocab_names", "props": ["C05"],
      "timeout": {"quick": 900, "thorough": 3600}},
+    {"name": "tzcache_prefixes", "module": "standins.tzcache_prefixes", "props": ["C19"],
+     "timeout": {"quick": 900, "thorough": 7200}},
     {"name": "totality", "module": "standins.totality", "props": ["C02"],
      "timeout": {"quick": 1500, "thorough": 7200}},
     {"name": "vocab_formats", "module": "standins.vocab_formats", "props": ["C14"],
